@@ -27,5 +27,5 @@ json.dump(meta,open(f"/verif/seeded/{ID}/meta.json","w"),indent=1)
 PY
   echo "CONFIRMED -> /verif/seeded/$ID"
 else
-  echo "NOT CONFIRMED"; tail -3 /tmp/cm_clean.out /tmp/cm_mut.out
+  echo "NOT CONFIRMED"; tail -n 3 /tmp/cm_clean.out; tail -n 3 /tmp/cm_mut.out
 fi
